@@ -422,6 +422,12 @@ def run_job(G, u, gen, bdir, job, tier):
         if not any('loop_invariant_base' in (p.get('property') or '') or 'loop invariant' in p.get('description', '').lower() for p in props):
             res['reason'] = 'loop contracts requested but no loop-invariant obligations were generated'
             return res
+    nobody_hit = [p for p in out_props if p['status'] == 'FAILURE' and 'undefined function should be unreachable' in p['description']]
+    if nobody_hit:
+        # the lowered code reaches a function for which the group has neither body, contract nor stub: the model does not
+        # cover this code (e.g. a new atomic operation) -> undecided, never a violation
+        res['reason'] = 'functions reached without body, contract or stub: %s' % sorted(set(p['function'] or p['property'] for p in nobody_hit))
+        return res
     other = [p for p in out_props if p['status'] not in ('SUCCESS', 'FAILURE')]
     real_fail = [p for p in out_props if p['status'] == 'FAILURE' and not p.get('twin')]
     if other and not real_fail:
